@@ -77,6 +77,13 @@ CHECKS = {
         "trusted: mc/ref/sf_functions.py (selftested against documentation examples); regex alphabet restricted to the subset where POSIX ERE and Python re agree; forms named in REJ_OK_TODAY may be rejected (the property allows rejection) but never answered wrongly",
         "bounded exhaustive enumeration (finite input product) on the real code against a documentation-derived reference evaluator",
     ),
+    "C07": (
+        "E1-bfs",
+        "model_checking",
+        "for every session state of a generator (context full/db-only/none x open transaction with a pending row x rich/minimal catalog) every failing statement of a written-out catalogue (statement kinds x ways of referring to something missing or duplicate x three qualification levels), and in thorough all depth-2 chains from a 12-statement prefix set, is executed on a fresh instance; exception class/errno/sqlstate, cursor.sqlstate, and the raw-DuckDB digest + session context + variables before/after are compared, followed by a usability suffix (pending row still visible, isolated, committed); plus every operation on a closed connection",
+        "trusted: raw DuckDB digest as ground truth; 'transaction still open' is decided from effects; not demanded: which of 2003/2043 for unknown column/function/schema/duplicate, message wording, failure of SHOW ... IN <missing scope>",
+        "explicit-state exploration of (session state x failing statement [x failing statement]) with before/after ground-truth comparison",
+    ),
 }
 
 NOT_BUILT = "check not built yet in this round (planned per DESIGN.md §3); no claim is made"
